@@ -162,10 +162,13 @@ func (br *BodyBuffer) Reset() error {
 	if environment.HasAccessToFS && br.writer != nil {
 		w := br.writer
 		br.writer = nil
-		if err := w.Close(); err != nil {
-			return err
+		// The temporary file has to go even if closing it fails, otherwise
+		// it is leaked: nothing else knows its name once writer is nil.
+		closeErr := w.Close()
+		if err := os.Remove(w.Name()); err != nil {
+			return errors.Join(closeErr, err)
 		}
-		return os.Remove(w.Name())
+		return closeErr
 	}
 
 	return nil
